@@ -15,7 +15,7 @@ ID = 'C12'
 LEVEL = 'exploration'
 EXHAUSTIVE = True
 EXHAUSTIVE_SCOPE = 'every (pipe,data,model) with product <= bound and every local rank is instantiated; cost dictionaries are drawn per family'
-RULE = ('exhaustive over (pipe,data,model) with product <= 24 (thorough <= 96), every local rank, cost families (uniform, ties, zeros, random, geometric; 1..2*stage+1 layers); '
+RULE = ('exhaustive over (pipe,data,model) with product <= 24 (thorough <= 96), every local rank, cost families (uniform, ties, zeros, random, geometric, ragged = layers with different factor sets; 1..2*stage+1 layers); '
         'non-trivial: world>1 and (model>1 or data>1); distinct = (pp,dp,mp,family); digests compared across PYTHONHASHSEED 0/1/4242')
 ASSUMPTIONS = ['the DeepSpeed topology is the stand-in in stubs/deepspeed (axes pipe,data,model; row-major)',
                'group handles are opaque recorder tuples']
@@ -31,6 +31,13 @@ def make_work(rng, fam, stage_size):
         return {f'l{i}': {'A': rng.choice([1, 2]), 'G': rng.choice([1, 2])} for i in range(L)}
     if fam == 'zeros':
         return {f'l{i}': {'A': rng.choice([0, 0, 1]), 'G': 0} for i in range(L)}
+    if fam == 'ragged':
+        # layers with different numbers of factors (only A, only G, both, or a third one): the load of a layer is the sum of ITS factors
+        out = {}
+        for i in range(L):
+            fs = rng.choice([('A',), ('G',), ('A', 'G'), ('A', 'G'), ('A', 'G', 'X')])
+            out[f'l{i}'] = {f: rng.choice([1, 2, 3, 5, 8]) for f in fs}
+        return out
     if fam == 'geometric':
         return {f'l{i}': {'A': 2.0 ** (i % 25), 'G': 3.0 ** (i % 15)} for i in range(L)}
     return {f'{i}.dense': {'A': rng.random() * 100, 'G': rng.random()} for i in range(L)}
@@ -97,10 +104,10 @@ def check_topology(pp, dp, mp, fam, rng, res):
                 return res.violation(f'rank {x}: get_layers() {a.get_layers()} != its stage layers', case)
             for l in work:
                 ci = topo.get_coord(invs[l])
-                fw = a.factor_worker(l, 'A')
+                fw = a.factor_worker(l, next(iter(work[l])))
                 cf = topo.get_coord(fw)
-                if a.factor_worker(l, 'G') != fw:
-                    return res.violation(f'rank {x}: factor workers of A and G of {l} differ', case)
+                if any(a.factor_worker(l, f) != fw for f in work[l]):
+                    return res.violation(f'rank {x}: factor workers of the factors of {l} differ', case)
                 if not ((cf.pipe, cf.data) == (c.pipe, c.data) and (cf.pipe, cf.model) == (ci.pipe, ci.model)):
                     return res.violation(f'rank {x} {tuple(c)}: factor_worker({l})={fw} {tuple(cf)} is not in its own model-parallel group and the inverse worker\'s '
                                          f'({invs[l]} {tuple(ci)}) data-parallel group', case)
@@ -122,7 +129,7 @@ def check_topology(pp, dp, mp, fam, rng, res):
     res.sample(dict(case, world=W, layers_per_stage=[len(w) for w in works], new_group_calls=calls[0][:4]))
 
 
-FAMS = ['uniform', 'ties', 'zeros', 'geometric', 'random']
+FAMS = ['uniform', 'ties', 'zeros', 'geometric', 'random', 'ragged']
 
 
 def topologies(limit):
